@@ -190,6 +190,17 @@ def check(ctx: Ctx) -> None:  # noqa: C901, PLR0912, PLR0915
     ctx.add("5-shape", gen, chk[0] if chk else gen.node, bool(chk), "zipped sequences are length-checked" if chk else "zipped sequences of unequal length are silently truncated", key="dim-length-check")
     names_vals = "names = self.items.keys()" in ast.unparse(gen.node) and "vals = self.items.values()" in ast.unparse(gen.node) and "dict(zip(names, res))" in ast.unparse(gen.node)
     ctx.add("5-shape", gen, gen.node, names_vals, "product arm pairs item names with their own values in item order" if names_vals else "product arm no longer pairs names and values from the same dict order", key="names-vals")
+    ext = [c for c in ast.walk(loop) if isinstance(c, ast.Call) and isinstance(c.func, ast.Attribute) and norm(c.func.value) == "dims" and c.func.attr in ("extend", "append", "insert")]
+    ok = bool(ext) and all(c.func.attr == "extend" for c in ext) and any(f"{var}.items" in norm(c.args[0]) for c in ext) and any(norm(c.args[0]) == f"{var}.dims" for c in ext)  # type: ignore[union-attr]
+    ctx.add("5-shape", prod, ext[0] if ext else loop, ok, "an operand contributes its own groups, or one group per key when it has none" if ok else
+            "the operand's keys are added to dims as ONE group (append): they are zipped instead of multiplied", key="one-group-per-key")
+    addf = ctx.prog.func(f"{MOD}.Sweep.__add__")
+    rets = [norm(r.value) for r in walk_no_nested(addf.node) if isinstance(r, ast.Return) and r.value is not None]
+    ok = rets == ["MultiSweep(self, other)"]
+    ctx.add("5-shape", addf, addf.node, ok, "a + b concatenates a before b" if ok else f"Sweep.__add__ returns {rets}: the receiver is not always first (and an operand may be mutated)", key="add-order")
+    mc = ctx.prog.func(f"{MOD}.MultiSweep.combine")
+    ok = "self.sweeps.extend(other.sweeps)" in norm(mc.node) and "self.sweeps.append(other)" in norm(mc.node)
+    ctx.add("5-shape", mc, mc.node, ok, "MultiSweep.combine appends the other sweep(s) after its own" if ok else "MultiSweep.combine no longer appends at the end", key="combine-appends")
     ms = ctx.prog.func(f"{MOD}.MultiSweep.generate")
     fl = [s for s in walk_no_nested(ms.node) if isinstance(s, ast.For)]
     ok = len(fl) == 1 and norm(fl[0].iter) == "self.sweeps" and any(isinstance(y, ast.YieldFrom) for y in ast.walk(fl[0]))
@@ -221,6 +232,9 @@ MUTANTS = [
     Mutant("multisweep-reversed", F, "        for sweep in self.sweeps:\n            yield from sweep.generate()", "        for sweep in reversed(self.sweeps):\n            yield from sweep.generate()", ("C17.5-shape",)),
     Mutant("group-product-instead-of-zip", F, "for res in zip(*dim_seqs)]", "for res in product(*dim_seqs)]", ("C17.5-shape",)),
     Mutant("no-length-check", F, "                _check_dim_lengths(dim_seqs, dims)\n", "", ("C17.5-shape",)),
+    Mutant("operand-keys-zipped", F, "                    dims.extend(list(other.items.keys()))\n", "                    dims.append(tuple(other.items.keys()))\n", ("C17.5-shape",), why="seeded C17/2"),
+    Mutant("add-multisweep-reversed", F, "        return MultiSweep(self, other)\n\n    def combine(self, other: Sweep) -> MultiSweep:\n        \"\"\"Add another sweep to this MultiSweep.\"\"\"\n        return self + other",
+           "        if isinstance(other, MultiSweep):\n            return other.combine(self)\n        return MultiSweep(self, other)\n\n    def combine(self, other: Sweep) -> MultiSweep:\n        \"\"\"Add another sweep to this MultiSweep.\"\"\"\n        return self + other", ("C17.5-shape",), why="seeded C17/3"),
     Mutant("twin-loop-var-renamed", F, "exclude=_combined_exclude(self.exclude, *(other.exclude for other in others)),", "exclude=_combined_exclude(self.exclude, *(o.exclude for o in others)),", twin=True),
     Mutant("twin-len-comment", F, "            return 0  # `generate` yields nothing without items\n", "            return 0\n", twin=True),
 ]
